@@ -126,6 +126,9 @@ func settle(base int) int {
 	}
 }
 
+var lastDrift bool
+var driftStreak int
+
 func runPipeline(w *tr.Writer, in []byte, caps []int, mode string, hist [][]interface{}, rng *rand.Rand, procs int) {
 	ref := sequentialRef(in, c09Start)
 	ncons := 0
@@ -150,6 +153,12 @@ func runPipeline(w *tr.Writer, in []byte, caps []int, mode string, hist [][]inte
 	var emu sync.Mutex
 	var cwg sync.WaitGroup
 	quit := make(chan struct{})
+	lagIdx := -1
+	for i := range chans {
+		if chans[i] != nil && (lagIdx < 0 || rng.Intn(2) == 0) {
+			lagIdx = i
+		}
+	}
 	for i := range chans {
 		if chans[i] == nil {
 			continue
@@ -158,6 +167,7 @@ func runPipeline(w *tr.Writer, in []byte, caps []int, mode string, hist [][]inte
 		go func(i int) {
 			defer cwg.Done()
 			slow := mode != "gated" && rng != nil && i%2 == 1
+			lag := mode == "lag" && i == lagIdx
 			for {
 				if ctl != nil {
 					ctl.At("cons.recv", i+1)
@@ -177,7 +187,9 @@ func runPipeline(w *tr.Writer, in []byte, caps []int, mode string, hist [][]inte
 				emu.Lock()
 				w.Emit(c09Recv{"recv", consIdx[i], msgDigest(&mm)})
 				emu.Unlock()
-				if slow {
+				if lag {
+					time.Sleep(1500 * time.Microsecond) // a consumer that falls far behind the others
+				} else if slow {
 					time.Sleep(20 * time.Microsecond)
 				}
 			}
@@ -186,7 +198,7 @@ func runPipeline(w *tr.Writer, in []byte, caps []int, mode string, hist [][]inte
 	end := c09End{Ev: "end"}
 	ret := make(chan string, 1)
 	var reader io.Reader = bytes.NewReader(in)
-	if mode == "free" {
+	if mode == "free" || mode == "lag" {
 		reader = &chunkReader{append([]byte{}, in...), rand.New(rand.NewSource(rng.Int63())), 1 + rng.Intn(64)}
 	}
 	go func() {
@@ -248,6 +260,7 @@ func runPipeline(w *tr.Writer, in []byte, caps []int, mode string, hist [][]inte
 		end.Leaked = settle(base)
 	}
 	verifhook.Handler = nil
+	lastDrift = end.Drift != ""
 	emu.Lock()
 	w.Emit(end)
 	emu.Unlock()
@@ -307,7 +320,17 @@ func c09(args []string) {
 			for i, x := range b.In {
 				in[i] = byte(x)
 			}
+			if driftStreak >= 3 {
+				continue // the code no longer follows the model's hook structure: replaying more schedules proves nothing
+			}
+			before := w.N
 			runPipeline(w, in, b.Caps, "gated", b.Hist, rng, runtime.GOMAXPROCS(0))
+			_ = before
+			if lastDrift {
+				driftStreak++
+			} else {
+				driftStreak = 0
+			}
 		}
 		f.Close()
 		// free-running cases: GOMAXPROCS 1..16, seeded yields at the hooks, chunked readers, slow consumers
@@ -316,6 +339,26 @@ func c09(args []string) {
 			nfree = 600
 		}
 		procs := []int{1, 2, 4, 16}
+		// one consumer lags far behind while many short messages arrive (30-80 messages)
+		nlag := 6
+		if thorough {
+			nlag = 40
+		}
+		for i := 0; i < nlag; i++ {
+			var in []byte
+			n := 30 + rng.Intn(50)
+			for k := 0; k < n; k++ {
+				in = append(in, gen.Frame(rng, gen.TypeClass(rng, k), 1+rng.Intn(12), 0)...)
+				if k%7 == 3 {
+					in = append(in, gen.Junk(rng, 1+rng.Intn(5), 1)...)
+				}
+			}
+			capsets := [][]int{{0, -1, 1, -1}, {0, 0}, {2, 0, 0}, {0}, {1, 8}}
+			p := procs[i%len(procs)]
+			old := runtime.GOMAXPROCS(p)
+			runPipeline(w, in, capsets[i%len(capsets)], "lag", nil, rng, p)
+			runtime.GOMAXPROCS(old)
+		}
 		for i := 0; i < nfree; i++ {
 			var in []byte
 			switch i % 4 {
